@@ -114,6 +114,46 @@ def emit(modname, cfgid, kind, variants, targets, sp=None, pre='', order=None, x
     return Module(modname, cfgid, body, hs, sample=sample, functions=FUNCTIONS)
 
 
+def reference_modules(start):
+    """reference-typed fields and targets: `&'static u8` must be told apart from `u8` when looking for the unique same-typed field"""
+    decl = '''pub fn narrow(v: u16) -> u8 { (v as u8) ^ 0x33 }
+#[derive(Educe)]
+#[educe(Into(u8), Into(&'static u8))]
+#[derive(Clone, Copy)]
+pub enum Ty {
+    Alpha { a: u8, r: &'static u8, pad: u16 },
+    Beta(&'static u8, u8),
+    Gamma { #[educe(Into(&'static u8))] p: &'static u8, q: &'static u8, #[educe(Into(u8, method(narrow)))] w: u16, v: u8 },
+}
+pub fn anyv() -> Ty {
+    match kani::any::<u8>() % 3 {
+        0 => Ty::Alpha { a: Sym::sym(), r: Sym::sym(), pad: Sym::sym() },
+        1 => Ty::Beta(Sym::sym(), Sym::sym()),
+        _ => Ty::Gamma { p: Sym::sym(), q: Sym::sym(), w: (kani::any::<u8>() as u16), v: Sym::sym() },
+    }
+}
+'''
+    h1 = Harness('h_into_u8', covers=['reached'])
+    h2 = Harness('h_into_ref', covers=['reached'])
+    body = PRE + decl + h1.attrs() + '''pub fn h_into_u8() {
+    let x = anyv();
+    let want: u8 = match x { Ty::Alpha { a, .. } => a, Ty::Beta(_, b) => b, Ty::Gamma { w, .. } => narrow(w) };
+    let got: u8 = Into::<u8>::into(x);
+    kani::cover!(true, "reached");
+    assert!(got == want, "Into<u8> did not return the designated field");
+}
+''' + h2.attrs() + '''pub fn h_into_ref() {
+    let x = anyv();
+    let want: *const u8 = match x { Ty::Alpha { r, .. } => r, Ty::Beta(r, _) => r, Ty::Gamma { p, .. } => p };
+    let got: &'static u8 = Into::<&'static u8>::into(x);
+    kani::cover!(true, "reached");
+    assert!(got as *const u8 == want, "Into<&u8> did not return the designated reference field");
+}
+'''
+    return [Module(f'm{start:04d}', "enum with u8 and &'static u8 fields, targets u8 and &'static u8 (unique same-typed, marker among two references, method on a u16 field)", body, [h1, h2],
+                   sample=dict(type_definition=decl[:500]), functions=FUNCTIONS)]
+
+
 def vid(ftys, des, targets):
     return '(' + ','.join(ftys) + ')' + ''.join(f'[{t}<-{des[t][0]}{"!" if des[t][1] else ""}{"m" if des[t][2] else ""}]' for t in targets)
 
@@ -155,6 +195,7 @@ def gen(tier, seed):
             v.name = S.VNAMES[k]
         cid = 'enum' + ';'.join(vid([f.ty for f in v.fields], v.des, targets) for v in vs)
         mods.append(emit(f'm{n:04d}', cid, 'enum', vs, targets)); n += 1
+    mods += reference_modules(n)
     return mods
 
 
